@@ -59,18 +59,18 @@ MUT={
  'c03-m8-failure-element-ignored-by-client': ('C03', lambda: sub('sasl.go','''		return nil, false, fail
 	default:''','''		return nil, true, nil
 	default:''')),
- 'c03-m9-plus-offer-counts-as-bare': ('C03', lambda: (sub('sasl.go','''			if name == m.Name {
+ 'c03-m9-plus-offer-counts-as-bare': ('C03', lambda: sub('sasl.go','''			if name == m.Name {
 				selected = m
 				break selectmechanism''','''			if name == m.Name || strings.TrimSuffix(name, "-PLUS") == m.Name {
 				selected = m
-				break selectmechanism'''), sub('sasl.go','''	"io"
-''','''	"io"
-	"strings"
-'''))),
- 'c03-m10-case-insensitive-mechanism-names': ('C03', lambda: (sub('sasl.go','''				if selection.Name == m.Name {''','''				if strings.EqualFold(selection.Name, m.Name) {'''), sub('sasl.go','''	"io"
-''','''	"io"
-	"strings"
-'''))),
+				break selectmechanism''')),
+ 'c03-m10-case-insensitive-mechanism-names': ('C03', lambda: sub('sasl.go','''				if selection.Name == m.Name && serverSupported(m) {''','''				if strings.EqualFold(selection.Name, m.Name) && serverSupported(m) {''')),
+ 'c03-m14-plus-mechanisms-advertised': ('C03', lambda: sub('sasl.go','''				if !serverSupported(m) {
+					continue
+				}''','''				if !serverSupported(m) && len(mechanisms) > 1 {
+					continue
+				}''')),
+ 'c03-m15-plus-mechanisms-accepted': ('C03', lambda: sub('sasl.go','''				if selection.Name == m.Name && serverSupported(m) {''','''				if selection.Name == m.Name {''')),
  'c03-m11-auth-flush-error-dropped': ('C03', lambda: sub('sasl.go','''	err = w.Flush()
 	if err != nil {
 		return mask, nil, err
@@ -79,6 +79,14 @@ MUT={
 	r := session.TokenReader()''','''	_ = w.Flush()
 
 	r := session.TokenReader()''')),
+ 'c03-m12-shared-scratch-buffer': ('C03', lambda: subprocess.run(['git','apply','/verif/seeded/C03-5/patch.diff'],cwd=R,check=True)),
+ 'c03-m13-selected-mechanism-kept-in-closure': ('C03', lambda: (sub('sasl.go','''	return StreamFeature{
+		Name:       xml.Name{Space: ns.SASL, Local: "mechanisms"},''','''	var lastData interface{}
+	return StreamFeature{
+		Name:       xml.Name{Space: ns.SASL, Local: "mechanisms"},'''), sub('sasl.go','''			return negotiateClient(ctx, identity, password, session, data, mechanisms...)''','''			if data != nil {
+				lastData = data
+			}
+			return negotiateClient(ctx, identity, password, session, lastData, mechanisms...)'''))),
  'c03-h1-harmless-encode-to-string': ('C03', lambda: sub('sasl.go','''		var encodedResp []byte
 		if len(resp) == 0 {
 			encodedResp = []byte{'='}
@@ -175,6 +183,12 @@ MUT={
 					hdrConn = tc.Conn
 				}
 				err = intstream.Send(hdrConn, out, websocket, stream.DefaultVersion, cfg.Lang, location.String(), origin.String(), "")''')),
+ 'c12-m14-bind-request-hoisted-into-closure': ('C12', lambda: (sub('bind.go','''	return StreamFeature{
+		Name:       xml.Name{Space: ns.Bind, Local: "bind"},''','''	var resReq bindIQ
+	return StreamFeature{
+		Name:       xml.Name{Space: ns.Bind, Local: "bind"},'''), sub('bind.go','''				resReq := bindIQ{}
+''','''				resReq = bindIQ{}
+'''))),
  'c12-h1-harmless-double-quotes': ('C12', lambda: (sub('internal/stream/stream.go','''b.WriteString(" " + attr.name + "='")''','''b.WriteString(" " + attr.name + "=\\"")'''), sub('internal/stream/stream.go','''		_, err = b.WriteString("'")
 		if err != nil {
 			return err
